@@ -100,8 +100,9 @@ def step (d : D) (toks : List String) : D × String :=
     let d := if kind = "rw" then (intern (intern d (name ++ ".cv")).1 (name ++ ".mtx")).1 else d
     let d := { d with kinds := d.kinds.insert name kind }
     let ev : Option Ev := match kind, toks with
-      | "mutex", _ => some (.mutexInit i)
-      | "rmutex", _ => some (.mutexInit i)
+      | "mutex", _ => some (.mutexInit i false)
+      | "rmutex", _ => some (.mutexInit i false)
+      | "cmutex", _ => some (.mutexInit i true)
       | "sem", [_, _, _, c, ino] => some (.semInit i (c.toNat?.getD 0) (decide (ino = "1")))
       | "rw", _ => some (.rwInit i ((intern d (name ++ ".cv")).2) ((intern d (name ++ ".mtx")).2))
       | _, _ => none
